@@ -903,3 +903,329 @@ Proof.
   - intros r Hin. apply (G_reader h0 ls e n Hwf Hfr s r); [|exact Hin].
     unfold s, prev. apply G_run; try assumption. apply G_init; assumption.
 Qed.
+
+(* ------------------------------------------------------------------------------------- *)
+(* the first loop of Insert on the heap: the top-down search computes exactly pred_of     *)
+(* ------------------------------------------------------------------------------------- *)
+
+(* next := current.getNext(lv); for next != nil && next.entry.compareWithEntry(e) < 0 {...} *)
+Fixpoint h_walk (h : heap) (e : mentry) (lv : nat) (fuel : nat) (cur : addr) : addr :=
+  match fuel with
+  | O => cur
+  | S f => match load h cur lv with
+           | None => cur
+           | Some nx => if lessA h e nx then h_walk h e lv f nx else cur
+           end
+  end.
+
+(* for level := lv downto 0 { walk; prev[level] = current } *)
+Fixpoint h_descend (h : heap) (e : mentry) (fuel : nat) (lv : nat) (cur : addr)
+                   (prevs : nat -> addr) : nat -> addr :=
+  let c := h_walk h e lv fuel cur in
+  let prevs' := fun l => if Nat.eqb l lv then c else prevs l in
+  match lv with
+  | O => prevs'
+  | S lv' => h_descend h e fuel lv' c prevs'
+  end.
+
+Definition h_prevs (h : heap) (e : mentry) (fuel : nat) (height : nat) : nat -> addr :=
+  match height with
+  | O => fun _ => head
+  | S top => h_descend h e fuel top head (fun _ => head)
+  end.
+
+Lemma lastd_app : forall P d c R, lastd d (P ++ c :: R) = lastd c R.
+Proof. induction P as [|a P IH]; intros d c R; [reflexivity|]. cbn [app lastd]. apply IH. Qed.
+
+Lemma after_head : forall h e l,
+  match after h e l with [] => True | b :: _ => lessA h e b = false end.
+Proof.
+  intros h e l. unfold after. induction l as [|a r IH]; [exact I|]. cbn [dropW].
+  destruct (lessA h e a) eqn:L; [exact IH|exact L].
+Qed.
+
+Lemma h_walk_spec : forall h e lv l R1 P cur fuel,
+  path h lv (Some head) (P ++ cur :: R1 ++ after h e l) ->
+  Forall (fun a => lessA h e a = true) R1 -> length R1 <= fuel ->
+  h_walk h e lv fuel cur = lastd cur R1.
+Proof.
+  intros h e lv l. induction R1 as [|x R1 IH]; intros P cur fuel Hp Hl Hf.
+  - cbn [lastd]. destruct fuel as [|f]; [reflexivity|]. cbn [h_walk].
+    unfold path in Hp. apply seg_split in Hp. destruct Hp as (m & _ & Hm).
+    pose proof (seg_start _ _ _ _ _ _ Hm) as ->. apply seg_load in Hm. destruct Hm as [Hm _].
+    rewrite Hm. cbn [app]. pose proof (after_head h e l) as Hh.
+    destruct (after h e l) as [|b Bf]; cbn [hd_or]; [reflexivity|]. rewrite Hh. reflexivity.
+  - cbn [length] in Hf. destruct fuel as [|f]; [lia|]. cbn [h_walk lastd].
+    inversion Hl as [|? ? Hx Hr]; subst.
+    pose proof Hp as Hp0. unfold path in Hp. apply seg_split in Hp. destruct Hp as (m & _ & Hm).
+    pose proof (seg_start _ _ _ _ _ _ Hm) as ->. apply seg_load in Hm. destruct Hm as [Hm _].
+    rewrite Hm. cbn [app hd_or]. rewrite Hx.
+    apply (IH (P ++ [cur])); [|exact Hr|lia].
+    rewrite <- app_assoc. exact Hp0.
+Qed.
+
+Lemma subseq_length : forall (T : Type) (l1 l2 : list T), subseq l1 l2 -> length l1 <= length l2.
+Proof. intros T l1 l2 H. induction H; cbn [length]; lia. Qed.
+
+Section HeapSearch.
+Variables (h : heap) (ls : nat -> list addr) (e : mentry) (fuel : nat).
+Hypothesis Hwf : wf_heap h ls.
+Hypothesis Hfuel : forall lv, length (ls lv) <= fuel.
+
+(* cur sits on the level-lv chain and everything between it and the first non-smaller
+   node is smaller *)
+Definition on_chain (lv : nat) (cur : addr) : Prop :=
+  exists P R1, head :: before h e (ls lv) = P ++ cur :: R1.
+
+Lemma on_chain_walk : forall lv cur, on_chain lv cur ->
+  h_walk h e lv fuel cur = pred_of h e (ls lv).
+Proof.
+  intros lv cur (P & R1 & E).
+  assert (Hl : Forall (fun a => lessA h e a = true) R1).
+  { pose proof (before_less h e (ls lv)) as F. destruct P as [|p P]; cbn [app] in E.
+    - injection E as _ E. rewrite E in F. exact F.
+    - injection E as _ E. rewrite E in F. apply Forall_app in F. destruct F as [_ F].
+      inversion F; assumption. }
+  assert (Hlen : length R1 <= fuel).
+  { specialize (Hfuel lv). rewrite <- (before_after h e (ls lv)) in Hfuel.
+    rewrite app_length in Hfuel. apply (f_equal (@length addr)) in E.
+    cbn [length] in E. rewrite app_length in E. cbn [length] in E. lia. }
+  rewrite (h_walk_spec h e lv (ls lv) R1 P cur fuel); [|  |exact Hl|exact Hlen].
+  - unfold pred_of. destruct P as [|p P]; cbn [app] in E.
+    + injection E as <- <-. reflexivity.
+    + injection E as _ E. rewrite E, lastd_app. reflexivity.
+  - replace (P ++ cur :: R1 ++ after h e (ls lv)) with (head :: ls lv); [apply Hwf|].
+    rewrite <- (before_after h e (ls lv)) at 1.
+    rewrite app_comm_cons, E, <- app_assoc. reflexivity.
+Qed.
+
+Lemma pred_on_chain_below : forall lv, on_chain lv (pred_of h e (ls (S lv))).
+Proof.
+  intros lv. unfold on_chain.
+  assert (Hin : In (pred_of h e (ls (S lv))) (head :: before h e (ls lv))).
+  { unfold pred_of.
+    assert (Hsub : subseq (head :: before h e (ls (S lv))) (head :: before h e (ls lv))).
+    { apply ss_take.
+      destruct (before_filter h e _ (wf_level_sorted h ls Hwf lv)) as [-> _].
+      destruct (before_filter h e _ (wf_level_sorted h ls Hwf (S lv))) as [-> _].
+      apply subseq_filter. apply Hwf. }
+    apply (subseq_incl _ _ _ Hsub).
+    rewrite (initd_lastd (before h e (ls (S lv))) head). apply in_or_app. right. left. reflexivity. }
+  apply in_split in Hin. destruct Hin as (P & R1 & E). exists P, R1. exact E.
+Qed.
+
+Lemma h_descend_spec : forall lv cur prevs, on_chain lv cur ->
+  forall l, h_descend h e fuel lv cur prevs l =
+            if Nat.leb l lv then pred_of h e (ls l) else prevs l.
+Proof.
+  induction lv as [|lv IH]; intros cur prevs Hc l; cbn [h_descend].
+  - rewrite (on_chain_walk 0 cur Hc). destruct l as [|l]; reflexivity.
+  - rewrite (on_chain_walk (S lv) cur Hc).
+    rewrite IH by apply pred_on_chain_below.
+    destruct (Nat.leb l lv) eqn:L1.
+    + apply Nat.leb_le in L1. assert (L2 : Nat.leb l (S lv) = true) by (apply Nat.leb_le; lia).
+      rewrite L2. reflexivity.
+    + apply Nat.leb_gt in L1. destruct (Nat.eqb l (S lv)) eqn:L3.
+      * apply Nat.eqb_eq in L3. subst l. rewrite Nat.leb_refl. reflexivity.
+      * apply Nat.eqb_neq in L3. assert (L2 : Nat.leb l (S lv) = false) by (apply Nat.leb_gt; lia).
+        rewrite L2. reflexivity.
+Qed.
+
+(* the prev[] array the code computes is the specification used in C1/C2 *)
+Theorem h_prevs_spec : forall height lv, lv < height ->
+  h_prevs h e fuel height lv = pred_of h e (ls lv).
+Proof.
+  intros [|top] lv Hlv; [lia|]. cbn [h_prevs]. rewrite h_descend_spec.
+  - assert (L : Nat.leb lv top = true) by (apply Nat.leb_le; lia). rewrite L. reflexivity.
+  - exists [], (before h e (ls top)). reflexivity.
+Qed.
+
+End HeapSearch.
+
+Definition op_level (o : wop) : nat := match o with Link1 lv | Link2 lv => lv end.
+
+Lemma insert_ops_levels : forall c j, Forall (fun o => j <= op_level o < j + c) (insert_ops j c).
+Proof.
+  induction c as [|c IH]; intros j; cbn [insert_ops]; [constructor|].
+  constructor; [cbn [op_level]; lia|]. constructor; [cbn [op_level]; lia|].
+  eapply Forall_impl; [|apply IH]. intros o Ho. cbv beta in Ho. lia.
+Qed.
+
+Lemma wexec_ext : forall n prev prev' h o, prev (op_level o) = prev' (op_level o) ->
+  wexec n prev h o = wexec n prev' h o.
+Proof. intros n prev prev' h [lv|lv] E; cbn [wexec op_level] in *; rewrite E; reflexivity. Qed.
+
+Lemma sys_run_ext : forall n prev prev' sched s,
+  Forall (fun o => prev (op_level o) = prev' (op_level o)) (s_ops s) ->
+  sys_run n prev s sched = sys_run n prev' s sched.
+Proof.
+  intros n prev prev'. induction sched as [|t sched IH]; intros s H; [reflexivity|].
+  cbn [sys_run fold_left]. fold (sys_run n prev). fold (sys_run n prev').
+  assert (E : sys_step n prev s t = sys_step n prev' s t).
+  { destruct t as [|i]; cbn [sys_step]; [|reflexivity].
+    destruct (s_ops s) as [|o r]; [reflexivity|]. inversion H as [|? ? Ho _]; subst.
+    rewrite (wexec_ext n prev prev' _ o Ho). reflexivity. }
+  rewrite E. apply IH.
+  destruct t as [|i]; cbn [sys_step]; [|exact H].
+  destruct (s_ops s) as [|o r] eqn:Eo; [rewrite Eo; exact H|]. cbn [s_ops].
+  inversion H; assumption.
+Qed.
+
+Lemma run_ext : forall n prev prev' ops h,
+  Forall (fun o => prev (op_level o) = prev' (op_level o)) ops ->
+  run n prev h ops = run n prev' h ops.
+Proof.
+  intros n prev prev'. induction ops as [|o ops IH]; intros h H; [reflexivity|].
+  inversion H as [|? ? Ho Hr]; subst. cbn [run fold_left]. fold (run n prev). fold (run n prev').
+  rewrite (wexec_ext n prev prev' h o Ho). apply IH. exact Hr.
+Qed.
+
+Lemma wf_length : forall h ls, wf_heap h ls -> forall lv, length (ls lv) <= length (ls 0).
+Proof.
+  intros h ls (_ & _ & Hsub). induction lv as [|lv IH]; [lia|].
+  pose proof (subseq_length _ _ _ (Hsub lv)). lia.
+Qed.
+
+Lemma prog_agree : forall h0 ls e fuel height, wf_heap h0 ls -> length (ls 0) <= fuel ->
+  Forall (fun o => h_prevs h0 e fuel height (op_level o) = pred_of h0 e (ls (op_level o)))
+         (insert_prog height).
+Proof.
+  intros h0 ls e fuel height Hwf Hf. unfold insert_prog.
+  eapply Forall_impl; [|apply insert_ops_levels]. intros o Ho. cbv beta in Ho.
+  apply (h_prevs_spec h0 ls e fuel Hwf); [|lia].
+  intros lv. pose proof (wf_length h0 ls Hwf lv). lia.
+Qed.
+
+Lemma Forall_firstn : forall (T : Type) (P : T -> Prop) k l, Forall P l -> Forall P (firstn k l).
+Proof.
+  intros T P k. induction k as [|k IH]; intros l H; [constructor|].
+  destruct l as [|x l]; [constructor|]. inversion H; subst. cbn [firstn]. constructor; auto.
+Qed.
+
+(* C1 and C2 for the whole Insert as the code runs it: prev[] computed by the top-down
+   search on the heap, then the stores *)
+Theorem C18_wellformed_always_search : forall h0 ls e n height fuel k,
+  wf_heap h0 ls -> fresh_node h0 ls n e -> length (ls 0) <= fuel ->
+  let h := run n (h_prevs h0 e fuel height) h0 (firstn k (insert_prog height)) in
+  exists ls',
+    wf_heap h ls' /\
+    (forall lv, sorted (ents h (ls' lv))) /\
+    (forall a, entry_of h a = entry_of h0 a) /\
+    (forall lv, incl (ls lv) (ls' lv)) /\
+    (forall lv, ents h (ls' lv) = ents h0 (ls lv) \/
+                ents h (ls' lv) = insert e (ents h0 (ls lv))).
+Proof.
+  intros h0 ls e n height fuel k Hwf Hfr Hf h.
+  assert (E : h = run n (fun lv => pred_of h0 e (ls lv)) h0 (firstn k (insert_prog height))).
+  { unfold h. apply run_ext. apply Forall_firstn. apply prog_agree; assumption. }
+  rewrite E. apply C18_wellformed_always; assumption.
+Qed.
+
+Theorem C18_reader_search : forall h0 ls e n height fuel rs sched,
+  wf_heap h0 ls -> fresh_node h0 ls n e -> length (ls 0) <= fuel ->
+  Forall (reader_ok h0 ls) rs ->
+  let s := sys_run n (h_prevs h0 e fuel height) (mkSys h0 (insert_prog height) rs) sched in
+  length (s_readers s) = length rs /\
+  forall r, In r (s_readers s) ->
+    (exists rest, r_done r ++ rest = head :: ls 0 \/
+                  r_done r ++ rest = head :: linked_in h0 e n (ls 0)) /\
+    (r_cur r = None ->
+       let out := ents (s_heap s) (tl (r_done r)) in
+       (out = ents h0 (ls 0) \/ out = insert e (ents h0 (ls 0))) /\ sorted out /\
+       (forall x, In x (ents h0 (ls 0)) -> In x out)).
+Proof.
+  intros h0 ls e n height fuel rs sched Hwf Hfr Hf Hrs s.
+  assert (E : s = sys_run n (fun lv => pred_of h0 e (ls lv))
+                    (mkSys h0 (insert_prog height) rs) sched).
+  { unfold s. apply sys_run_ext. cbn [s_ops]. apply prog_agree; assumption. }
+  rewrite E. apply C18_reader; assumption.
+Qed.
+
+(* ------------------------------------------------------------------------------------- *)
+(* a concrete instance                                                                    *)
+(* ------------------------------------------------------------------------------------- *)
+
+Module Ex.
+Local Open Scope N_scope.
+Definition e1 := mkM [1] 1 KVal [10].
+Definition e2 := mkM [3] 1 KVal [30].
+Definition e3 := mkM [5] 2 KVal [50].
+Definition e4 := mkM [3] 7 KDel [].          (* newer version of key [3]: goes before e2 *)
+Local Close Scope N_scope.
+
+Definition nx (l : list (option addr)) : nat -> option addr := fun lv => nth lv l None.
+
+(* head -> 1 -> 2 -> 3 on level 0, head -> 1 -> 3 on level 1, head -> 3 on level 2;
+   node 4 is allocated but not linked *)
+Definition h_ex : heap := fun a =>
+  match a with
+  | 0 => Some (mkNode dflt_entry (nx [Some 1; Some 1; Some 3]))
+  | 1 => Some (mkNode e1 (nx [Some 2; Some 3]))
+  | 2 => Some (mkNode e2 (nx [Some 3]))
+  | 3 => Some (mkNode e3 (nx []))
+  | 4 => Some (mkNode e4 (nx []))
+  | _ => None
+  end.
+
+Definition ls_ex (lv : nat) : list addr :=
+  match lv with 0 => [1; 2; 3] | 1 => [1; 3] | 2 => [3] | _ => [] end.
+
+Definition prev_ex (lv : nat) : addr := pred_of h_ex e4 (ls_ex lv).
+
+Lemma wf_ex : wf_heap h_ex ls_ex.
+Proof.
+  split; [|split].
+  - intros [|[|[|lv]]]; try (apply chain_of_path with (fuel := 10); reflexivity).
+    unfold path. eapply seg_cons; [reflexivity|]. cbn [n_next nx nth ls_ex]. destruct lv; constructor.
+  - cbn. repeat constructor.
+  - intros [|[|[|lv]]]; cbn [ls_ex].
+    + apply ss_take. apply ss_skip. apply ss_take. apply ss_nil.
+    + apply ss_skip. apply ss_take. apply ss_nil.
+    + apply subseq_nil_l.
+    + apply ss_nil.
+Qed.
+
+Lemma fresh_ex : fresh_node h_ex ls_ex 4 e4.
+Proof.
+  split; [discriminate|]. split; [eexists; split; reflexivity|].
+  intros [|[|[|lv]]]; cbn [ls_ex In]; intuition discriminate.
+Qed.
+
+(* the three chains after 0, 1, 2, 3, 4 stores of an Insert with height 2 *)
+Example wellformed_always_ex :
+  prev_ex 0 = 1 /\ prev_ex 1 = 1 /\
+  map (fun k => map (fun lv => chain_of (run 4 prev_ex h_ex (firstn k (insert_prog 2))) lv 10
+                                        (Some head)) [0; 1; 2]) [0; 1; 2; 3; 4] =
+  [ [Some [0; 1; 2; 3];    Some [0; 1; 3];    Some [0; 3]];
+    [Some [0; 1; 2; 3];    Some [0; 1; 3];    Some [0; 3]];
+    [Some [0; 1; 4; 2; 3]; Some [0; 1; 3];    Some [0; 3]];
+    [Some [0; 1; 4; 2; 3]; Some [0; 1; 3];    Some [0; 3]];
+    [Some [0; 1; 4; 2; 3]; Some [0; 1; 4; 3]; Some [0; 3]] ].
+Proof. vm_compute. repeat split. Qed.
+
+(* reader 0 loads head.next and node1.next before the writer links level 0, reader 1 starts
+   afterwards; reader 0 returns the old content, reader 1 the new one *)
+Example reader_ex :
+  let sched := [TR 0; TR 0; TW; TW; TR 1; TR 1; TR 1; TW; TR 1; TR 1; TR 0; TR 0; TW; TR 0] in
+  let s := sys_run 4 prev_ex (mkSys h_ex (insert_prog 2) [r_init; r_init]) sched in
+  map (fun r => (r_cur r, r_done r)) (s_readers s) =
+    [(None, [0; 1; 2; 3]); (None, [0; 1; 4; 2; 3])] /\
+  map (fun r => ents (s_heap s) (tl (r_done r))) (s_readers s) =
+    [[e1; e2; e3]; [e1; e4; e2; e3]] /\
+  s_ops s = [].
+Proof. vm_compute. repeat split. Qed.
+
+(* the top-down search on the heap finds the same prev[] *)
+Example h_prevs_ex :
+  map (h_prevs h_ex e4 10 3) [0; 1; 2] = [1; 1; 0] /\ map prev_ex [0; 1; 2] = [1; 1; 0].
+Proof. vm_compute. split; reflexivity. Qed.
+
+(* the general theorems instantiated *)
+Example wellformed_always_inst : forall k,
+  exists ls', wf_heap (run 4 prev_ex h_ex (firstn k (insert_prog 2))) ls'.
+Proof.
+  intros k. destruct (C18_wellformed_always h_ex ls_ex e4 4 2 k wf_ex fresh_ex) as (ls' & W & _).
+  exists ls'. exact W.
+Qed.
+
+End Ex.
